@@ -41,6 +41,7 @@ def apply() -> None:
     for obj, attr in (
         (enforce.EnforcedConditions, "trace_call"),
         (bl, "_format"),
+        (bl, "_str_percent_format"),
         (_core.ShortCircuitingContext, "make_interceptor"),
         (z3.Solver, "check"),
     ):
@@ -71,6 +72,21 @@ def apply() -> None:
 
     bl._format = _format
     _core._PATCH_REGISTRATIONS[format] = _format
+
+    # P2b: `fmt % obj` (collections.namedtuple.__repr__ uses it) deep-realises every symbolic reachable from `obj`;
+    # realise only what is symbolic at the top level, user objects are rendered by their own __repr__/__str__
+    _orig_percent = bl._str_percent_format
+
+    def _str_percent_format(self, other):
+        with NoTracing():
+            items = other if isinstance(other, tuple) else (other,)
+            direct = any(isinstance(x, (bl.AnySymbolicStr, bl.SymbolicNumberAble)) or type(x).__module__.startswith("crosshair") for x in items)
+        if direct or not isinstance(self, str):
+            return _orig_percent(self, other)
+        return self.__mod__(other)
+
+    bl._str_percent_format = _str_percent_format
+    _core._PATCH_REGISTRATIONS[str.__mod__] = _str_percent_format
 
     # P3: never short-circuit bodies of contract-bearing callables
     _core.ShortCircuitingContext.make_interceptor = lambda self, original: original
